@@ -59,6 +59,7 @@ Pso(r) ==
     /\ Name(r) = "ParticleVelocitiesUpdate" =>
           /\ r.x.moved = 1                           \* each particle moved by exactly its new velocity
           /\ r.x.vexact # 0                          \* (c1 = c2 = 0) the stored weight scaled the old velocity
+          /\ r.x.vrange # 0                          \* (any c1, c2) ... up to the two attraction terms, each between 0 and c * (best - x)
           /\ r.x.wsched # 0                          \* ... and it is the weight the schedule prescribes for this pass
     /\ Name(r) = "Linear" => r.x.wexact = 1          \* weight = linear interpolation at the loop's progress
     /\ Name(r) = "PersonalBestParticlesUpdate" =>
@@ -72,6 +73,14 @@ Pso(r) ==
     /\ (prev.xk = "pso" /\ r.x.sw = 0 /\ Name(r) \notin {"PersonalBestParticlesInit", "PersonalBestParticlesUpdate"}) =>
           r.x.pbr = prev.x.pbr                       \* memories change only in their update components
     /\ (prev.xk = "pso" /\ r.x.sw = 0 /\ Name(r) # "GlobalBestParticleUpdate") => r.x.gbr = prev.x.gbr
+
+\* A pass of the swarm's loop is complete: whatever the pass consists of (with or without a weight schedule, whichever
+\* order its book-keeping steps have), every personal best is the best position that particle was ever evaluated at
+\* and the global best is the best personal best.  (minr is the history kept by this specification.)
+PsoPassEnd(r) ==
+    (Len(minr) > 0 /\ Len(r.x.pbr) = Len(minr) /\ r.x.npb = r.x.np) =>
+        /\ r.x.pbr = minr
+        /\ r.x.gbr = MinOf(r.x.pbr)
 
 \* the per-particle history of evaluated positions starts afresh when another swarm takes over
 MinrKeep(r) == IF r.xk = "pso" /\ r.x.sw = 1 THEN <<>> ELSE minr
@@ -218,6 +227,8 @@ Exit(r) == /\ r.ev = "exit"
               \* the recorded best is the minimum the objective function returned so far
               /\ (On("C07") /\ f.role = "loop_body" /\ ~InLoop(rest) /\ r.sd = 1 /\ r.calls > 0) =>
                     BestIsMin(r.best, r.minseen, MinX(r))
+              \* C18: the swarm's memories are consistent whenever a pass of its loop is complete
+              /\ (On("C18") /\ r.xk = "pso" /\ f.role = "loop_body" /\ ~InLoop(rest) /\ r.x.sw = 0) => PsoPassEnd(r)
               /\ frames' = rest
            /\ minr' = MinrKeep(r)
            /\ minx' = MinX(r)
